@@ -5,6 +5,7 @@
   R3 single deleter, guarded by the referrer check
   R4 lookups answer from the six maps of *this* version only
   R5 rename discipline
+  R6 values shared between schema versions are never mutated in place
 """
 from __future__ import annotations
 
@@ -472,3 +473,206 @@ def run(repo: Repo, ctx) -> None:
     ctx.ob('C04.R5', 'RenameObject._alter_innards:canonicalizes', ok,
            'rename no longer canonicalises (propagates to children) in '
            'non-canonical mode', ai.loc, sample='_canonicalize in innards')
+
+    _r6(repo, ctx)
+
+
+OBJS = 'edb.schema.objects'
+MUTATORS = {'append', 'extend', 'insert', 'pop', 'remove', 'sort', 'reverse',
+            'clear', 'update', 'add', 'discard', 'setdefault', 'popitem',
+            '__setitem__', '__delitem__'}
+COPIERS = {'list', 'tuple', 'set', 'frozenset', 'dict', 'sorted', 'copy',
+           'deepcopy'}
+
+
+# writes to a collection slot outside __init__ that were audited
+SLOT_WRITE_OK = {
+    'edb.schema.objects.ObjectSet.merge_values:result._ids':
+        'in-place union of two non-empty ObjectSet values: stored values '
+        'carry tuple ids, for which |= raises TypeError before anything is '
+        'mutated, and no schema class merges two non-empty ObjectSet fields '
+        '(triage/objectset_merge_inplace.py runs the real code)',
+}
+
+
+def _lazy_fill(fn: FuncInfo, target: ast.AST, stmt: ast.AST) -> bool:
+    """`if self.x is None: self.x = ...` -- a write-once cache fill."""
+    g = CFG(fn.node)
+    ids = g.nodes_of(stmt)
+    tests = [n.id for n in g.nodes if n.kind == 'test'
+             and norm(n.ast) in (f'{norm(target)} is None',
+                                 f'({norm(target)} is None)')]
+    return bool(ids) and any(g.edge_dominates(t, 'T', ids[0]) for t in tests)
+
+
+def _memoised(fn: FuncInfo) -> bool:
+    for d in fn.node.decorator_list:
+        t = norm(d)
+        if 'lru_cache' in t or t in ('functools.cache', 'cache'):
+            return True
+    return False
+
+
+def _mutable_return(fn: FuncInfo) -> bool:
+    a = norm(fn.node.returns) if fn.node.returns is not None else ''
+    head = a.split('[')[0].split('.')[-1]
+    if head in ('List', 'list', 'Dict', 'dict', 'Set', 'set', 'MutableSet',
+                'MutableMapping', 'MutableSequence', 'bytearray',
+                'DefaultDict', 'OrderedDict'):
+        return True
+    if a:
+        return False
+    for r in ast.walk(fn.node):
+        if isinstance(r, ast.Return) and isinstance(
+                r.value, (ast.List, ast.ListComp, ast.Dict, ast.DictComp,
+                          ast.Set, ast.SetComp)):
+            return True
+    return False
+
+
+def _mutations_of(fnode: ast.AST, var: str):
+    """In-place mutations of the local `var` inside fnode."""
+    for n in ast.walk(fnode):
+        if isinstance(n, (ast.Assign, ast.AugAssign, ast.Delete)):
+            tg = n.targets if isinstance(n, (ast.Assign, ast.Delete)) \
+                else [n.target]
+            for t in tg:
+                if isinstance(t, ast.Subscript) and norm(t.value) == var:
+                    yield n, f'{var}[...] assigned'
+                if isinstance(n, ast.AugAssign) and norm(t) == var:
+                    yield n, f'{var} {type(n.op).__name__}= (in place)'
+        elif isinstance(n, ast.Call) and isinstance(n.func, ast.Attribute) \
+                and n.func.attr in MUTATORS and norm(n.func.value) == var:
+            yield n, f'{var}.{n.func.attr}()'
+
+
+def _r6(repo: Repo, ctx) -> None:
+    ctx.floor('C04.R6', 6)
+    # (a) memoised functions handing out a mutable container: every caller
+    #     copies before mutating
+    memo = {q: f for q, f in repo.functions.items()
+            if q.startswith(('edb.schema.', 'edb.common.', 'edb.edgeql.',
+                             'edb.ir.', 'edb.pgsql.', 'edb.server.compiler.'))
+            and _memoised(f) and _mutable_return(f)}
+    if 'edb.schema.name.quals_from_fullname' not in memo:
+        raise AnalysisError('C04.R6: quals_from_fullname is no longer a '
+                            'memoised list-returning function; re-derive '
+                            'the rule instances')
+    for q, mf in sorted(memo.items()):
+        ctx.saw(mf)
+        short = q.split('.')[-1]
+        sites = 0
+        for mn, m in repo.modules.items():
+            if not mn.startswith('edb.') or mn.startswith('edb.tools'):
+                continue
+            if short not in m.src:
+                continue
+            for f in repo._funcs_of(m):
+                for n in walk_no_nested(f.node):
+                    if not isinstance(n, ast.Assign) or len(n.targets) != 1 \
+                            or not isinstance(n.targets[0], ast.Name):
+                        continue
+                    v = n.value
+                    if not (isinstance(v, ast.Call) and (call_name(v) or ''
+                                                         ).split('.')[-1]
+                            == short):
+                        continue
+                    sites += 1
+                    var = n.targets[0].id
+                    muts = list(_mutations_of(f.node, var))
+                    ctx.ob('C04.R6', f'{f.qualname}:{short}->{var}',
+                           not muts,
+                           f'{f.qualname} mutates the list returned by the '
+                           f'memoised {q} in place '
+                           f'({muts[0][1] if muts else ""}): the cached '
+                           f'value is shared by every later call for the '
+                           f'same name, so names derived for unrelated '
+                           f'schema versions change', f.loc,
+                           sample=f'{var} = {norm(v)[:50]} (not mutated)')
+        ctx.ob('C04.R6', f'{q}:call-sites', True, loc=mf.loc,
+               sample=f'{sites} direct-binding call sites',
+               nontrivial=False)
+    # (b) ObjectCollection instances are shared by every schema version
+    #     (schema_restore is memoised, and the instance sits in the data
+    #     tuple of all versions): their slots are written in __init__ only
+    oc = repo.cls(f'{OBJS}.ObjectCollection')
+    slots = {'_ids', '_keys'}
+    restore = oc.methods.get('schema_restore')
+    ctx.ob('C04.R6', 'ObjectCollection.schema_restore:memoised',
+           restore is not None and _memoised(restore),
+           'precondition of this rule changed', oc.loc,
+           sample='lru_cache', nontrivial=False)
+    for mn, m in repo.modules.items():
+        if not mn.startswith('edb.schema'):
+            continue
+        for f in repo._funcs_of(m):
+            for n in walk_no_nested(f.node):
+                tg = []
+                if isinstance(n, ast.Assign):
+                    tg = n.targets
+                elif isinstance(n, (ast.AugAssign, ast.AnnAssign)):
+                    tg = [n.target]
+                for t in tg:
+                    if isinstance(t, ast.Attribute) and t.attr in slots:
+                        ok = f.name == '__init__' and norm(t.value) == 'self'
+                        key = f'{f.qualname}:{norm(t)}'
+                        if not ok and _lazy_fill(f, t, n):
+                            ok = True
+                        if not ok and key in SLOT_WRITE_OK:
+                            ctx.ob('C04.R6', key, True, loc=f.loc,
+                                   sample='audited: ' + SLOT_WRITE_OK[key],
+                                   nontrivial=False)
+                            continue
+                        ctx.ob('C04.R6', f'{f.qualname}:{norm(t)}', ok,
+                               f'{f.qualname} rebinds {norm(t)} on an '
+                               f'existing collection object: that object is '
+                               f'the stored field value of earlier schema '
+                               f'versions too (and of the base it was read '
+                               f'from), so they change with it', f.loc,
+                               sample=f'{norm(n)[:60]}')
+    # (c) the refresh of a referrer's child index recomputes the keys
+    oib = repo.cls(f'{OBJS}.ObjectIndexBase')
+    cr = oib.methods.get('create')
+    rc = repo.func(f'{OBJS}.Object.refresh_classref')
+    if cr is None:
+        raise AnalysisError('ObjectIndexBase.create not found')
+    reuse = any(isinstance(n, ast.If) and 'isinstance(data, ObjectIndexBase)'
+                in norm(n.test) and any('_keys' in norm(b) for b in n.body)
+                for n in ast.walk(cr.node))
+    calls = [c for c in ast.walk(rc.node) if isinstance(c, ast.Call)
+             and isinstance(c.func, ast.Attribute) and c.func.attr == 'create'
+             and len(c.args) >= 2]
+    if len(calls) != 1:
+        raise AnalysisError('C04.R6: refresh_classref no longer rebuilds the '
+                            'collection through .create')
+    arg = calls[0].args[1]
+    stored = {n.targets[0].id for n in ast.walk(rc.node)
+              if isinstance(n, ast.Assign) and isinstance(
+                  n.targets[0], ast.Name) and isinstance(n.value, ast.Call)
+              and 'get_' in norm(n.value.func) and 'field_value' in
+              norm(n.value.func)}
+    ok = not (reuse and isinstance(arg, ast.Name) and arg.id in stored)
+    ctx.ob('C04.R6', 'refresh_classref:recomputes-keys', ok,
+           'refresh_classref hands the stored index itself to '
+           'ObjectIndexBase.create, which then reuses its cached _keys: the '
+           'refresh after a rename is a no-op and the parent keeps resolving '
+           'the child by its old name', rc.loc,
+           sample=f'create(schema, {norm(arg)})')
+    rr = repo.functions.get(
+        'edb.schema.referencing.RenameReferencedInheritingObject.'
+        '_alter_begin')
+    if rr is None:
+        raise AnalysisError('RenameReferencedInheritingObject._alter_begin '
+                            'not found')
+    g = CFG(rr.node)
+    ref = [n.id for n in g.nodes if any(
+        isinstance(c.func, ast.Attribute) and c.func.attr ==
+        'refresh_classref' for c in g.node_calls(n))]
+    t = [n.id for n in g.nodes if n.kind == 'test'
+         and norm(n.ast) == 'referrer_ctx']
+    ok = bool(ref) and bool(t) and g.always_after(
+        t[0], ref, exits={g.exit}, first_labels={'T'})
+    ctx.ob('C04.R6', 'RenameReferencedInheritingObject:refreshes-referrer',
+           ok, 'renaming an owned child does not refresh the referrer\'s '
+           'name-keyed index on every path', rr.loc,
+           sample='referrer.refresh_classref(schema, refdict.attr)')
